@@ -34,6 +34,8 @@ IDENTITY = {
     "alloc::boxed::Box::<T, A>::leak": "arg0",
     "alloc::boxed::Box::<T, A>::into_raw": "arg0",
     "alloc::boxed::Box::<T>::into_raw": "arg0",
+    "alloc::boxed::Box::<T>::from_raw": "arg0",
+    "alloc::boxed::Box::<T, A>::from_raw_in": "arg0",
     "core::mem::ManuallyDrop::<T>::new": "arg0",
     "core::mem::MaybeUninit::<T>::as_ptr": "arg0",
     "core::mem::MaybeUninit::<T>::as_mut_ptr": "arg0",
